@@ -193,6 +193,29 @@ func (e *Engine) doCall(st *State, call *ssa.CallCommon, fnv Val, args []Val, re
 		}
 	}
 	c := e.lookupContract(key)
+	var hookInstr ssa.Instruction
+	if ci, ok := retTo.(ssa.Instruction); ok && len(st.frames) == 1 {
+		hookInstr = ci
+		e.runHooks(st, fr, hookInstr, key, "before")
+		if st.dead {
+			return
+		}
+	}
+	if hookInstr != nil {
+		defer func() {
+			// "after" hooks run when the call's effect has been applied (contract or havoc; not for inlined callees)
+			if len(st.frames) == 1 && !st.dead {
+				e.runHooks(st, fr, hookInstr, key, "after")
+			}
+		}()
+	}
+	if callee != nil && e.inlinable(st, callee, c) && e.summarizable(callee, map[*ssa.Function]bool{}) && st.summary == nil {
+		if res, ok := e.summarize(st, callee, c, fnv, args, retTo); ok {
+			e.inlinedFns[key+" (summarised: side-effect free)"] = true
+			setRes(res)
+			return
+		}
+	}
 	if callee != nil && e.inlinable(st, callee, c) {
 		e.inlinedFns[key] = true
 		nf := &Frame{fn: callee, regs: map[ssa.Value]Val{}, block: callee.Blocks[0], names: map[string]Val{}, nameAddr: map[string]bool{},
@@ -267,15 +290,179 @@ func (e *Engine) havocCall(st *State, key string, callee *ssa.Function, args []V
 		st.escape(a)
 	}
 	inModule := callee != nil && callee.Pkg != nil && strings.HasPrefix(callee.Pkg.Pkg.Path(), e.modulePath)
-	if !refs && !inModule && callee != nil {
-		e.havocCalls[key+" (scalar args, external: no heap effect assumed)"] = true
+	if callee != nil && callee.Parent() != nil {
+		inModule = true
+	}
+	isModuleIface := callee == nil && strings.HasPrefix(key, "("+e.modulePath)
+	if !refs && !inModule && !isModuleIface && key != "<dynamic func value>" {
+		e.havocCalls[key+" (external, scalar arguments: no effect on the caller's memory assumed)"] = true
 		return
 	}
-	e.havocCalls[key+" (all heaps havocked)"] = true
-	e.havocAll(st)
+	if !inModule && !isModuleIface && key != "<dynamic func value>" {
+		// external callee without a contract: shallow frame (assumption, listed in the evidence): it may change the
+		// objects its reference arguments point to (pointee / slice elements / map / receiver) and allocate, nothing else.
+		e.havocCalls[key+" (external, no contract: shallow frame assumed - may modify only the objects its arguments refer to)"] = true
+		var roots []string
+		for _, a := range args {
+			addrsIn(a, func(term, root string) {
+				if term != "" && term != "null" {
+					roots = append(roots, "(root "+term+")")
+				}
+			})
+			if a.K == KIface {
+				roots = append(roots, "(root (iaddr "+a.T+"))")
+			}
+		}
+		e.havocRoots(st, roots)
+		st.bumpWatermark()
+		return
+	}
+	ghost := true
+	if callee != nil {
+		ghost = e.mayTouchGhost(callee, map[*ssa.Function]bool{})
+	}
+	if ghost {
+		e.havocCalls[key+" (module code without contract: all heaps and ghost state havocked)"] = true
+	} else {
+		e.havocCalls[key+" (module code without contract: all program heaps havocked; ghost state kept: the callee cannot reach an operation that changes it)"] = true
+	}
+	e.havocAllG(st, ghost)
 }
 
-func (e *Engine) havocAll(st *State) {
+// havocRoots forgets the contents of the objects with the given root terms (all program heaps and map heaps).
+func (e *Engine) havocRoots(st *State, roots []string) {
+	if len(roots) == 0 {
+		return
+	}
+	names := map[string]bool{}
+	for n := range st.heaps {
+		names[n] = true
+	}
+	for n := range e.initHeaps {
+		names[n] = true
+	}
+	for _, n := range baseHeaps {
+		names[n] = true
+	}
+	var sorted []string
+	for n := range names {
+		if !strings.HasPrefix(n, "G$") {
+			sorted = append(sorted, n)
+		}
+	}
+	sortStrings(sorted)
+	for _, n := range sorted {
+		if !strings.HasPrefix(e.heapSortOf(n), "(Array Addr ") {
+			continue
+		}
+		old := st.heap(n)
+		nw := st.havocHeap(n)
+		var cs []string
+		for _, r := range roots {
+			cs = append(cs, "(= (root a) "+r+")")
+		}
+		st.assume("(forall ((a Addr)) (! (=> (not " + sOr(cs...) + ") (= (select " + nw + " a) (select " + old + " a))) :pattern ((select " + nw + " a))))")
+	}
+}
+
+// instrMayTouchGhost: can this call change ghost state (i.e. reach a contract that assigns a ghost state)?
+func (e *Engine) callMayTouchGhost(call *ssa.CallCommon, seen map[*ssa.Function]bool) bool {
+	if _, ok := call.Value.(*ssa.Builtin); ok && !call.IsInvoke() {
+		return false
+	}
+	var key string
+	var callee *ssa.Function
+	if call.IsInvoke() {
+		key = methodKey(call.Value.Type(), call.Method.Name())
+	} else {
+		callee = call.StaticCallee()
+		if callee == nil {
+			return true // dynamic function value
+		}
+		key = keyOf(callee)
+	}
+	if c := e.lookupContract(key); c != nil {
+		if !c.HasAssigns {
+			return true
+		}
+		for _, d := range c.Assigns {
+			d = strings.TrimSpace(d)
+			if d == "*" || d == "all" {
+				return true
+			}
+			if d == "memory" {
+				continue
+			}
+			name := d
+			if i := strings.Index(d, "("); i >= 0 {
+				name = d[:i]
+			}
+			if g, ok := e.ghosts[name]; ok && g.IsState {
+				return true
+			}
+		}
+		// a contract that is only loop specs (inlinable) says nothing about effects: look at the body
+		if callee != nil && !c.Trusted && len(c.Requires) == 0 && len(c.Ensures) == 0 && !c.HasAssigns {
+			return e.mayTouchGhost(callee, seen)
+		}
+		return false
+	}
+	if call.IsInvoke() {
+		return strings.HasPrefix(key, "("+e.modulePath)
+	}
+	return e.mayTouchGhost(callee, seen)
+}
+
+func (e *Engine) mayTouchGhost(fn *ssa.Function, seen map[*ssa.Function]bool) bool {
+	if fn == nil {
+		return true
+	}
+	if seen[fn] {
+		return false
+	}
+	seen[fn] = true
+	inModule := false
+	root := fn
+	for root.Parent() != nil {
+		root = root.Parent()
+	}
+	if root.Pkg != nil && strings.HasPrefix(root.Pkg.Pkg.Path(), e.modulePath) {
+		inModule = true
+	}
+	if !inModule {
+		return false // code outside the module cannot name the module's ghost-tracked objects (assumption, listed)
+	}
+	if fn.Blocks == nil {
+		return true
+	}
+	for _, b := range fn.Blocks {
+		for _, in := range b.Instrs {
+			switch x := in.(type) {
+			case *ssa.Call:
+				if e.callMayTouchGhost(&x.Call, seen) {
+					return true
+				}
+			case *ssa.Defer:
+				if e.callMayTouchGhost(&x.Call, seen) {
+					return true
+				}
+			case *ssa.Go:
+				if e.callMayTouchGhost(&x.Call, seen) {
+					return true
+				}
+			case *ssa.MakeClosure:
+				if f, ok := x.Fn.(*ssa.Function); ok && e.mayTouchGhost(f, seen) {
+					return true
+				}
+			}
+		}
+	}
+	return false
+}
+
+func (e *Engine) havocAll(st *State) { e.havocAllG(st, true) }
+
+func (e *Engine) havocAllG(st *State, ghost bool) {
 	// keep private (unescaped) objects: forall a. root(a) in private => H'[a] = H[a]
 	var priv []string
 	for r := range st.private {
@@ -300,6 +487,9 @@ func (e *Engine) havocAll(st *State) {
 	}
 	sortStrings(sorted)
 	for _, n := range sorted {
+		if !ghost && strings.HasPrefix(n, "G$") {
+			continue
+		}
 		old := st.heap(n)
 		nw := st.havocHeap(n)
 		if len(priv) > 0 && strings.HasPrefix(e.heapSortOf(n), "(Array Addr ") {
@@ -997,4 +1187,284 @@ func (e *Engine) selectOp(st *State, in *ssa.Select) {
 		v.F = append(v.F, st.freshVal(tp.At(i).Type(), "selrecv"))
 	}
 	fr.regs[in] = v
+}
+
+// callOrdinal: ordinal (1-based, source order) of instr among the calls of fn whose callee key contains sub.
+func (e *Engine) callOrdinal(fn *ssa.Function, instr ssa.Instruction, sub string) int {
+	type cp struct {
+		in  ssa.Instruction
+		pos token.Pos
+		idx int
+	}
+	var list []cp
+	n := 0
+	for _, b := range fn.Blocks {
+		for _, in := range b.Instrs {
+			n++
+			c, ok := in.(*ssa.Call)
+			if !ok {
+				continue
+			}
+			var key string
+			if c.Call.IsInvoke() {
+				key = methodKey(c.Call.Value.Type(), c.Call.Method.Name())
+			} else if f := c.Call.StaticCallee(); f != nil {
+				key = keyOf(f)
+			} else {
+				continue
+			}
+			if sub == "*" || strings.Contains(key, sub) {
+				list = append(list, cp{in, in.Pos(), n})
+			}
+		}
+	}
+	for i := 1; i < len(list); i++ {
+		for j := i; j > 0 && (list[j].pos < list[j-1].pos || (list[j].pos == list[j-1].pos && list[j].idx < list[j-1].idx)); j-- {
+			list[j], list[j-1] = list[j-1], list[j]
+		}
+	}
+	for i, x := range list {
+		if x.in == instr {
+			return i + 1
+		}
+	}
+	return 0
+}
+
+func (e *Engine) runHooks(st *State, fr *Frame, instr ssa.Instruction, key, when string) {
+	fc := fr.contract
+	if fc == nil || len(fc.Hooks) == 0 {
+		return
+	}
+	for _, h := range fc.Hooks {
+		if h.When != when {
+			continue
+		}
+		if h.Callee != "*" && !strings.Contains(key, h.Callee) {
+			continue
+		}
+		if h.Ord > 0 && e.callOrdinal(fr.fn, instr, h.Callee) != h.Ord {
+			continue
+		}
+		env := e.frameEnv(st, fr)
+		switch h.Kind {
+		case "snap":
+			v, err := e.evalC(st, env, h.Clause.Expr)
+			if err != nil {
+				e.unsupported("atcall snap %s in %s: %v", h.Name, fc.Key, err)
+				continue
+			}
+			fr.names[h.Name] = v
+			delete(fr.nameAddr, h.Name)
+		case "assert":
+			t, err := e.evalBool(st, env, h.Clause.Expr)
+			if err != nil {
+				e.unsupported("atcall assert %d in %s: %v", h.Clause.Ord, fc.Key, err)
+				continue
+			}
+			ordTxt := ""
+			if h.Ord > 0 {
+				ordTxt = fmt.Sprintf("#%d", h.Ord)
+			}
+			name := fmt.Sprintf("%s.atcall.%s%s.%s.%d", fc.Key, h.Callee, ordTxt, when, h.Clause.Ord)
+			if h.Ord == 0 {
+				// one obligation per call site: name it by the callee and its ordinal among all calls
+				name = fmt.Sprintf("%s.atcall.%s.%s.%d[%s#%d]", fc.Key, h.Callee, when, h.Clause.Ord, lastSeg(key), e.callOrdinal(fr.fn, instr, lastSegKey(key)))
+			}
+			st.addCheck(&Check{Name: name, Kind: "atcall", Goal: t, Pos: h.Clause.Where, Tags: h.Clause.Tags, Func: fc.Key, Clause: h.Clause.Text, Bounded: st.boundedNow()})
+			st.assume(t)
+		}
+	}
+}
+
+func lastSegKey(key string) string { return key }
+
+// ---------- summaries of side-effect-free callees ----------
+
+type summaryOut struct {
+	tail   *node
+	res    []Val
+	wmBase string
+	wmK    int
+}
+
+type summaryCtx struct {
+	base    int
+	outs    []summaryOut
+	dropped int
+}
+
+// summarizable: the function (and everything it calls) neither writes memory nor allocates nor has loops,
+// so its effect is its result, and all its paths can be folded into one ite-expression.
+func (e *Engine) summarizable(fn *ssa.Function, seen map[*ssa.Function]bool) bool {
+	if fn == nil || fn.Blocks == nil || seen[fn] {
+		return false
+	}
+	seen[fn] = true
+	if len(e.loops(fn).list) > 0 || fn.Recover != nil {
+		return false
+	}
+	n := 0
+	for _, b := range fn.Blocks {
+		for _, in := range b.Instrs {
+			n++
+			switch x := in.(type) {
+			case *ssa.Store, *ssa.MapUpdate, *ssa.Alloc, *ssa.MakeSlice, *ssa.MakeMap, *ssa.MakeChan, *ssa.MakeClosure, *ssa.Defer, *ssa.Go,
+				*ssa.Send, *ssa.Select, *ssa.Panic, *ssa.Range, *ssa.Next, *ssa.RunDefers, *ssa.MakeInterface:
+				if _, isMI := in.(*ssa.MakeInterface); isMI {
+					continue
+				}
+				return false
+			case *ssa.Call:
+				if b, ok := x.Call.Value.(*ssa.Builtin); ok && !x.Call.IsInvoke() {
+					if b.Name() == "len" || b.Name() == "cap" || b.Name() == "min" || b.Name() == "max" {
+						continue
+					}
+					return false
+				}
+				if x.Call.IsInvoke() {
+					return false
+				}
+				cal := x.Call.StaticCallee()
+				if cal == nil {
+					return false
+				}
+				cc := e.lookupContract(keyOf(cal))
+				if cc != nil {
+					return false
+				}
+				if !e.summarizable(cal, seen) {
+					return false
+				}
+			case *ssa.UnOp:
+				if x.Op == token.ARROW {
+					return false
+				}
+			}
+		}
+	}
+	return n < 200
+}
+
+func (e *Engine) summarize(st *State, callee *ssa.Function, c *FuncContract, fnv Val, args []Val, retTo ssa.Value) (Val, bool) {
+	sub := st.clone()
+	start := st.tail
+	nf := &Frame{fn: callee, regs: map[ssa.Value]Val{}, block: callee.Blocks[0], names: map[string]Val{}, nameAddr: map[string]bool{},
+		cut: map[*ssa.BasicBlock]bool{}, unrolled: map[*ssa.BasicBlock]int{}, contract: c, params: args}
+	for i, p := range callee.Params {
+		if i < len(args) {
+			v := args[i]
+			v.Ty = p.Type()
+			nf.regs[p] = v
+			nf.names[p.Name()] = v
+		}
+	}
+	for i, fv := range callee.FreeVars {
+		if i < len(fnv.Bind) {
+			nf.regs[fv] = fnv.Bind[i]
+		} else {
+			return Val{}, false
+		}
+	}
+	sub.frames = append(sub.frames, nf)
+	sc := &summaryCtx{base: len(sub.frames)}
+	sub.summary = sc
+	savedPaths := e.pathCount
+	e.explore(sub, 0, nil, 0)
+	e.pathCount = savedPaths
+	if len(sc.outs) == 0 || len(sc.outs) > 64 {
+		return Val{}, false
+	}
+	// hoist declarations/definitions; turn assertions into path conditions
+	emitted := map[*node]bool{}
+	var pcs []string
+	for _, o := range sc.outs {
+		var nodes []*node
+		for n := o.tail; n != nil && n != start; n = n.prev {
+			nodes = append(nodes, n)
+		}
+		var conj, facts []string
+		for i := len(nodes) - 1; i >= 0; i-- {
+			n := nodes[i]
+			if n.check != nil {
+				return Val{}, false // obligations inside: fall back to ordinary inlining
+			}
+			if strings.HasPrefix(n.text, "(assert ") {
+				if n.branch {
+					conj = append(conj, n.text[8:len(n.text)-1])
+				} else {
+					facts = append(facts, n.text[8:len(n.text)-1])
+				}
+				continue
+			}
+			if !emitted[n] {
+				emitted[n] = true
+				st.emit(n.text)
+			}
+		}
+		pc := st.define("spc", "Bool", sAnd(conj...))
+		pcs = append(pcs, pc)
+		for _, f := range facts {
+			st.emit("(assert " + sImp(pc, f) + ")")
+		}
+	}
+	nres := len(sc.outs[0].res)
+	var rs []Val
+	for i := 0; i < nres; i++ {
+		r := sc.outs[len(sc.outs)-1].res[i]
+		for k := len(sc.outs) - 2; k >= 0; k-- {
+			a := sc.outs[k].res[i]
+			if a.K != r.K {
+				return Val{}, false
+			}
+			nr := valIte(pcs[k], a, r)
+			if a.Root != r.Root {
+				nr.Root = ""
+			} else {
+				nr.Root = r.Root
+			}
+			nr.NonNil = a.NonNil && r.NonNil
+			r = nr
+		}
+		rs = append(rs, r)
+	}
+	// name the folded results to keep terms small
+	for i := range rs {
+		rs[i] = e.nameVal(st, rs[i], "sum")
+	}
+	st.assume(sOr(pcs...))
+	switch len(rs) {
+	case 0:
+		return Val{K: KUnit}, true
+	case 1:
+		return rs[0], true
+	}
+	var ty types.Type
+	if retTo != nil {
+		ty = retTo.Type()
+	}
+	return Val{K: KTuple, F: rs, Ty: ty}, true
+}
+
+func (e *Engine) nameVal(st *State, v Val, hint string) Val {
+	switch v.K {
+	case KInt, KBool, KAddr, KStr, KIface, KReal:
+		if strings.HasPrefix(v.T, "(ite ") {
+			v.T = st.define(hint, sortOfKind(v.K), v.T)
+		}
+	case KSlice:
+		if strings.HasPrefix(v.Base, "(ite ") {
+			v.Base = st.define(hint, "Addr", v.Base)
+			v.Off = st.define(hint, "Int", v.Off)
+			v.Len = st.define(hint, "Int", v.Len)
+			v.Cap = st.define(hint, "Int", v.Cap)
+		}
+	case KStruct, KTuple, KArr:
+		f := make([]Val, len(v.F))
+		for i := range v.F {
+			f[i] = e.nameVal(st, v.F[i], hint)
+		}
+		v.F = f
+	}
+	return v
 }
